@@ -437,6 +437,18 @@ Definition einsum_sizes_ok (ins : list (list nat)) (ts : list (tensor F)) : bool
   forallb (fun p => (length (fst p) =? ndim (snd p))
                     && forallb (fun q => snd q =? label_size ins ts (fst q)) (combine (fst p) (shape (snd p))))
           (combine ins ts).
+(* /repo 8b25fc6: before building its equation the einsum multi_mode_dot checks that the contracted dimension of every non-skipped
+   matrix / vector operand equals the size of ITS mode in the given tensor (np.einsum would broadcast a size-1 dimension) *)
+Definition fit_one (sT : list nat) (tr : bool) (M : tensor F) (k : nat) : bool :=
+  if k <? length sT then
+    match ndim M with
+    | 1 => nth 0 (shape M) 0 =? nth k sT 0
+    | 2 => (if tr then nth 0 (shape M) 0 else nth 1 (shape M) 0) =? nth k sT 0
+    | _ => true
+    end
+  else true.     (* tl.shape(tensor)[mode] raises IndexError: the loop rejects the mode *)
+Definition mmd_e_fits (sT : list nat) (tr : bool) (skip : option nat) (l : list triple) : bool :=
+  forallb (fun x => is_skip skip (snd x) || fit_one sT tr (fst (fst x)) (t_mode x)) l.
 (* np.einsum itself: the size of a label is the largest size among its axes, an axis of size 1 under a longer label is
    broadcast (its only entry is used for every value of the label), any other disagreement raises *)
 Definition label_full (ins : list (list nat)) (ts : list (tensor F)) (l : nat) : nat :=
@@ -454,6 +466,15 @@ Definition einsum_np (ins : list (list nat)) (out : list nat) (ts : list (tensor
   if einsum_bcast_ok ins ts
   then Ok (einsum ins out (map (fun p => bcast_operand ins ts (fst p) (snd p)) (combine ins ts))) else Err.
 Definition multi_mode_dot_e (T : tensor F) (Ms : list (tensor F)) (modes : option (list nat))
+           (skip : option nat) (tr : bool) : res (tensor F) :=
+  let order := ndim T in
+  if mmd_e_fits (shape T) tr skip (sort_by_mode (zip3 Ms modes)) then
+  rbind (mmd_e_loop (sort_by_mode (zip3 Ms modes)) skip tr order
+                    (mkS [] [] (seq 0 order) (order + 1) 0)) (fun st =>
+  einsum_np (seq 0 order :: s_ins st) (s_out st) (T :: s_ops st))
+  else Err.
+(* the routine before 8b25fc6 (no check: np.einsum broadcast a size-1 mismatch), kept for the regression Example *)
+Definition multi_mode_dot_e_before_8b25fc6 (T : tensor F) (Ms : list (tensor F)) (modes : option (list nat))
            (skip : option nat) (tr : bool) : res (tensor F) :=
   let order := ndim T in
   rbind (mmd_e_loop (sort_by_mode (zip3 Ms modes)) skip tr order
@@ -507,10 +528,16 @@ Fixpoint mmd_e_loop_z (l : list ztriple) (skip : option nat) (tr : bool) (order 
       | _, _ => match ndim M with 1 | 2 => Err | _ => Err end
       end
   end.
+Definition mmd_e_fits_z (sT : list nat) (tr : bool) (skip : option nat) (l : list ztriple) : bool :=
+  forallb (fun x => is_skip skip (snd x) ||
+                    match py_index (length sT) (zt_mode x) with Some k => fit_one sT tr (fst (fst x)) k | None => true end) l.
 Definition multi_mode_dot_e_z_gen (norm : bool) (T : tensor F) (Ms : list (tensor F)) (ms : list Z) (skip : option nat) (tr : bool) : res (tensor F) :=
   let order := ndim T in
-  rbind (mmd_e_loop_z (sort_by_mode_z (zip3z Ms (if norm then map (norm_mode order) ms else ms))) skip tr order (mkS [] [] (seq 0 order) (order + 1) 0)) (fun st =>
-  einsum_np (seq 0 order :: s_ins st) (s_out st) (T :: s_ops st)).
+  let l := sort_by_mode_z (zip3z Ms (if norm then map (norm_mode order) ms else ms)) in
+  if negb norm || mmd_e_fits_z (shape T) tr skip l then     (* the check of 8b25fc6 came after the mode resolution of 92eb2a5 *)
+  rbind (mmd_e_loop_z l skip tr order (mkS [] [] (seq 0 order) (order + 1) 0)) (fun st =>
+  einsum_np (seq 0 order :: s_ins st) (s_out st) (T :: s_ops st))
+  else Err.
 Definition multi_mode_dot_e_z := multi_mode_dot_e_z_gen true.
 Definition multi_mode_dot_e_z_before_92eb2a5 := multi_mode_dot_e_z_gen false.
 
